@@ -1433,3 +1433,446 @@ func ruleKeepOtherBase(c *Ctx, r *Rep, tier string) {
 		r.Pass(rule, key, c.Pos(recv.Pos()), fmt.Sprintf("all %d paths from the receive to keep pass the not-equal edge of the base comparison", n))
 	}
 }
+
+// ---- ASSERT-CHECKED ------------------------------------------------------------
+//
+// x.(T) without the comma-ok form panics when the dynamic type is another one.
+// In decoder code the dynamic type of an interface value is, as a rule, decided
+// by the input (the type byte of an aux field decides what Aux.Value returns).
+// Every such assertion in the library is either shown safe structurally – it
+// sits on the edge of a type switch/comma-ok test of the same value for the same
+// type, or its operand was made from a value of that type in the same function –
+// or is in the table below, reviewed by reading, with the reason. A new one
+// (eleventh-round seed C11-l: cg.Value().([]uint32) on a CG field of any type) is
+// reported.
+var assertTable = map[string]string{
+	"sam.NewAux#[]int8":                        "contract: behind reflect's element kind Int8; the one decoder that calls NewAux (ParseAux) passes slices it made itself with make([]int8, n). An array or a named slice type of int8 from an API caller does panic here (second hunt, DESIGN 5.1, not counted: NewAux is a constructor for the caller's own values, not a decoder)",
+	"sam.NewAux#[]uint8":                       "contract: as for []int8 – ParseAux passes make([]uint8, n)",
+	"bam.(*Merger).pop#*bam.reader":            "internal: the heap holds only what push put in, and push takes a *reader",
+	"bam.(*bySortOrderAndID).Push#*bam.reader": "internal: called by container/heap with the argument of heap.Push, which only (*Merger).push calls, with a *reader",
+}
+
+func ruleAssertChecked(c *Ctx, r *Rep, tier string) {
+	rule := "ASSERT-CHECKED"
+	for _, fn := range boundsScope(c) {
+		fn := fn
+		k := map[string]int{}
+		allInstrs(fn, func(ins ssa.Instruction) {
+			ta, ok := ins.(*ssa.TypeAssert)
+			if !ok || ta.CommaOk {
+				return
+			}
+			if ins.Pos() == token.NoPos {
+				return
+			}
+			r.Instance(rule, 1)
+			ts := types.TypeString(ta.AssertedType, func(p *types.Package) string { return p.Name() })
+			k[ts]++
+			key := fmt.Sprintf("%s#assert:%s~%d", c.FnName(fn), ts, k[ts])
+			// an interface-to-interface assertion to a wider interface can fail too; only
+			// an operand built from a value of exactly that type is safe by construction
+			if mi, ok := ta.X.(*ssa.MakeInterface); ok && types.Identical(mi.X.Type(), ta.AssertedType) {
+				r.Pass(rule, key, c.Pos(ins.Pos()), "the operand was made from a value of the asserted type")
+				return
+			}
+			// dominated by the ok edge of a comma-ok assertion of the same operand to the same type
+			for _, b := range fn.Blocks {
+				ifi := ifOf(b)
+				if ifi == nil {
+					continue
+				}
+				ex, ok := ifi.Cond.(*ssa.Extract)
+				if !ok || ex.Index != 1 {
+					continue
+				}
+				if t2, ok := ex.Tuple.(*ssa.TypeAssert); ok && t2.CommaOk && t2.X == ta.X && types.Identical(t2.AssertedType, ta.AssertedType) && dominatedByEdge(fn, b, 0, ta.Block()) {
+					r.Pass(rule, key, c.Pos(ins.Pos()), "behind a comma-ok test of the same value for the same type")
+					return
+				}
+			}
+			tk := c.FnName(fn) + "#" + ts
+			if why, ok := assertTable[tk]; ok {
+				r.Pass(rule, key, c.Pos(ins.Pos()), why)
+				return
+			}
+			r.Fail(rule, key, c.Pos(ins.Pos()), "type assertion without the comma-ok form on a value whose dynamic type is not shown to be "+ts+": a decoder that reaches it with another type – which type an aux field holds is the input's choice – panics instead of returning an error")
+		})
+	}
+}
+
+// ---- CSV-FIELDS ----------------------------------------------------------------
+//
+// IDX-CONST trusts the fixed-column indexing of fai.ReadFrom on a premise:
+// "FieldsPerRecord = 5 makes every record have five fields". The premise is
+// checked here: the FieldsPerRecord field of the csv.Reader that ReadFrom reads
+// from is assigned a positive constant before the first Read, nowhere else, and
+// every constant index into a record is below it. (With 0 the field count is
+// taken from the first record: "chr1\t100\n" then indexes past the slice, and
+// the deferred recover re-panics what is not a parse error – eleventh-round seed
+// C11-k.)
+func ruleCSVFields(c *Ctx, r *Rep, tier string) {
+	rule := "CSV-FIELDS"
+	fn := c.Func("fai", "ReadFrom")
+	key := "fai.ReadFrom#fields-per-record"
+	r.Instance(rule, 1)
+	var read *ssa.Call
+	var stores []*ssa.Store
+	maxIdx := int64(-1)
+	allInstrs(fn, func(ins ssa.Instruction) {
+		switch x := ins.(type) {
+		case *ssa.Call:
+			if calleeFullName(&x.Call) == "(*encoding/csv.Reader).Read" && read == nil {
+				read = x
+			}
+		case *ssa.Store:
+			if fa, ok := x.Addr.(*ssa.FieldAddr); ok {
+				if fv := fieldVarOfAddr(fa); fv != nil && fv.Name() == "FieldsPerRecord" && fv.Pkg() != nil && fv.Pkg().Path() == "encoding/csv" {
+					stores = append(stores, x)
+				}
+			}
+		}
+	})
+	if read == nil {
+		r.Fail(rule, key, c.Pos(fn.Pos()), "no (*csv.Reader).Read call: undecided")
+		return
+	}
+	// constant indices into the record (result 0 of Read)
+	var rec ssa.Value
+	for _, ref := range *read.Referrers() {
+		if ex, ok := ref.(*ssa.Extract); ok && ex.Index == 0 {
+			rec = ex
+		}
+	}
+	for _, f := range withAnon(fn) {
+		allInstrs(f, func(ins ssa.Instruction) {
+			ia, ok := ins.(*ssa.IndexAddr)
+			if !ok {
+				return
+			}
+			if _, isSl := ia.X.Type().Underlying().(*types.Slice); !isSl {
+				return
+			}
+			if el, ok := ia.X.Type().Underlying().(*types.Slice).Elem().Underlying().(*types.Basic); !ok || el.Kind() != types.String {
+				return
+			}
+			if k, ok := constInt(ia.Index); ok && k > maxIdx {
+				maxIdx = k
+			}
+		})
+	}
+	why := ""
+	switch {
+	case len(stores) != 1:
+		why = fmt.Sprintf("FieldsPerRecord is assigned at %d places (want exactly one, before the first Read)", len(stores))
+	case rec == nil || maxIdx < 0:
+		why = "the record or its constant indices were not found: undecided"
+	default:
+		k, ok := constInt(stores[0].Val)
+		switch {
+		case !ok:
+			why = "FieldsPerRecord is not a constant"
+		case k <= maxIdx:
+			why = fmt.Sprintf("FieldsPerRecord = %d but a record is indexed at %d: with 0 encoding/csv takes the count from the first record, with a negative value it does not check at all – a short line indexes past the record, and ReadFrom's recover re-panics everything that is not a parse error", k, maxIdx)
+		case !instrDominates(stores[0], read):
+			why = "FieldsPerRecord is assigned after a Read can have happened"
+		}
+	}
+	r.Check(why == "", rule, key, c.Pos(read.Pos()), fmt.Sprintf("FieldsPerRecord is a constant above the largest constant index (%d) and is set before the first Read", maxIdx), why)
+}
+
+// ---- LINEAR-KEEP ---------------------------------------------------------------
+//
+// The linear index maps a 16 KiB tile to the offset of the first record that
+// overlaps it. Records are added in position order, so a tile's entry, once
+// recorded, belongs to an earlier record than any later Add can bring: Add may
+// extend the list, never rewrite or drop what is in it. (Eleventh-round seed
+// C04-k grew the list with append after re-slicing it to the record's first
+// tile: the tiles the record shares with its predecessors got the later offset,
+// and a query that starts in one of them no longer finds the earlier record.)
+//
+// Decided in internal.(*Index).Add on the shape of every write to
+// Reference.Intervals:
+//   #no-truncation   no re-slice of the list with an upper bound flows back into
+//                    the field;
+//   #no-overwrite    no element of the list as held is stored to in place;
+//   #extends~k       where a new, longer list is built: the old one is copied to
+//                    its front before it is installed, and every element store
+//                    uses an index whose first value is the larger of the
+//                    record's first tile and the old length.
+func ruleLinearKeep(c *Ctx, r *Rep, tier string) {
+	rule := "LINEAR-KEEP"
+	fn := c.Func("internal", "(*Index).Add")
+	ivF := c.Field("internal", "RefIndex", "Intervals")
+	name := c.FnName(fn)
+	isIvLoad := func(v ssa.Value) bool {
+		f, _ := loadedField(v)
+		return f == ivF
+	}
+	// derivedFromHeld: v is the held list or a re-slice of it
+	var fromHeld func(v ssa.Value, depth int) (held bool, truncated ssa.Instruction)
+	fromHeld = func(v ssa.Value, depth int) (bool, ssa.Instruction) {
+		if depth > 8 {
+			return false, nil
+		}
+		if isIvLoad(v) {
+			return true, nil
+		}
+		switch x := v.(type) {
+		case *ssa.Slice:
+			h, t := fromHeld(x.X, depth+1)
+			if h && x.High != nil && t == nil {
+				t = x
+			}
+			return h, t
+		case *ssa.Phi:
+			for _, e := range x.Edges {
+				if h, t := fromHeld(e, depth+1); h {
+					return true, t
+				}
+			}
+		case *ssa.Call:
+			if bi, ok := x.Call.Value.(*ssa.Builtin); ok && bi.Name() == "append" && len(x.Call.Args) > 0 {
+				return fromHeld(x.Call.Args[0], depth+1)
+			}
+		}
+		return false, nil
+	}
+	var fieldStores []*ssa.Store
+	allInstrs(fn, func(ins ssa.Instruction) {
+		if st, ok := ins.(*ssa.Store); ok {
+			if fa, ok := st.Addr.(*ssa.FieldAddr); ok && fieldVarOfAddr(fa) == ivF {
+				fieldStores = append(fieldStores, st)
+			}
+		}
+	})
+	r.Instance(rule, 2)
+	why := ""
+	for _, st := range fieldStores {
+		if h, t := fromHeld(st.Val, 0); h && t != nil {
+			why = "the list is re-sliced with an upper bound (" + c.Pos(t.Pos()) + ") and stored back: entries recorded for earlier records are dropped, and what is appended in their place carries the later record's offset"
+		}
+	}
+	r.Check(why == "", rule, name+"#no-truncation", c.Pos(fn.Pos()), "the list is never cut back", why)
+	why = ""
+	allInstrs(fn, func(ins ssa.Instruction) {
+		st, ok := ins.(*ssa.Store)
+		if !ok {
+			return
+		}
+		ia, ok := st.Addr.(*ssa.IndexAddr)
+		if !ok {
+			return
+		}
+		if h, _ := fromHeld(ia.X, 0); h {
+			why = "an element of the list as held is assigned at " + c.Pos(st.Pos()) + ": the tile keeps the offset of the first record that reached it"
+		}
+	})
+	r.Check(why == "", rule, name+"#no-overwrite", c.Pos(fn.Pos()), "no entry is assigned in place", why)
+
+	// new lists
+	k := 0
+	for _, fs := range fieldStores {
+		mk, ok := fs.Val.(*ssa.MakeSlice)
+		if !ok {
+			continue
+		}
+		k++
+		r.Instance(rule, 1)
+		key := fmt.Sprintf("%s#extends~%d", name, k)
+		why := ""
+		copied := false
+		allInstrs(fn, func(ins ssa.Instruction) {
+			if cc, ok := isBuiltinCall(ins, "copy"); ok && cc.Args[0] == ssa.Value(mk) && isIvLoad(cc.Args[1]) && instrDominates(ins, fs) {
+				copied = true
+			}
+		})
+		if !copied {
+			why = "the new list is installed without the old one having been copied to its front"
+		}
+		allInstrs(fn, func(ins ssa.Instruction) {
+			st, ok := ins.(*ssa.Store)
+			if !ok {
+				return
+			}
+			ia, ok := st.Addr.(*ssa.IndexAddr)
+			if !ok || ia.X != ssa.Value(mk) {
+				return
+			}
+			// the index: a loop variable whose first value is max(first tile, old length)
+			first := ia.Index
+			if p, ok := first.(*ssa.Phi); ok && len(p.Edges) == 2 {
+				for i, e := range p.Edges {
+					if !dependsOnValue(e, p) {
+						first = e
+						_ = i
+					}
+				}
+			}
+			if !isMaxWithLen(fn, first, isIvLoad) {
+				why = "an element of the new list is assigned at " + c.Pos(st.Pos()) + " from an index that is not shown to start at or above the old length: tiles already recorded get this record's offset"
+			}
+		})
+		r.Check(why == "", rule, key, c.Pos(fs.Pos()), "old entries copied, new ones written from max(first tile, old length) on", why)
+	}
+}
+
+func dependsOnValue(v, target ssa.Value) bool {
+	seen := map[ssa.Value]bool{}
+	var walk func(v ssa.Value) bool
+	walk = func(v ssa.Value) bool {
+		if v == target {
+			return true
+		}
+		if v == nil || seen[v] {
+			return false
+		}
+		seen[v] = true
+		ins, ok := v.(ssa.Instruction)
+		if !ok {
+			return false
+		}
+		for _, op := range ins.Operands(nil) {
+			if *op != nil && walk(*op) {
+				return true
+			}
+		}
+		return false
+	}
+	return walk(v)
+}
+
+// isMaxWithLen: v is max(x, len(L)) for a held list L – the builtin, or the φ of
+// `if len(L) > x { x = len(L) }` (any spelling of the comparison), or len(L)
+// itself.
+func isMaxWithLen(fn *ssa.Function, v ssa.Value, isList func(ssa.Value) bool) bool {
+	isLen := func(x ssa.Value) bool {
+		a, ok := isLenCall(stripConv(x))
+		return ok && isList(a)
+	}
+	if isLen(v) {
+		return true
+	}
+	if call, ok := v.(*ssa.Call); ok {
+		if bi, ok := call.Call.Value.(*ssa.Builtin); ok && bi.Name() == "max" {
+			for _, a := range call.Call.Args {
+				if isLen(a) {
+					return true
+				}
+			}
+		}
+	}
+	p, ok := v.(*ssa.Phi)
+	if !ok || len(p.Edges) != 2 {
+		return false
+	}
+	li := -1
+	for i, e := range p.Edges {
+		if isLen(e) {
+			li = i
+		}
+	}
+	if li < 0 {
+		return false
+	}
+	other := p.Edges[1-li]
+	// the edge that carries len(L) is taken where len(L) > other (or ≥), the other where not
+	for _, b := range fn.Blocks {
+		ifi := ifOf(b)
+		if ifi == nil {
+			continue
+		}
+		bo, ok := ifi.Cond.(*ssa.BinOp)
+		if !ok {
+			continue
+		}
+		var lenGreaterEdge int
+		switch {
+		case isLen(bo.X) && stripConv(bo.Y) == stripConv(other) && (bo.Op == token.GTR || bo.Op == token.GEQ):
+			lenGreaterEdge = 0
+		case isLen(bo.X) && stripConv(bo.Y) == stripConv(other) && (bo.Op == token.LSS || bo.Op == token.LEQ):
+			lenGreaterEdge = 1
+		case isLen(bo.Y) && stripConv(bo.X) == stripConv(other) && (bo.Op == token.LSS || bo.Op == token.LEQ):
+			lenGreaterEdge = 0
+		case isLen(bo.Y) && stripConv(bo.X) == stripConv(other) && (bo.Op == token.GTR || bo.Op == token.GEQ):
+			lenGreaterEdge = 1
+		default:
+			continue
+		}
+		// the φ's len edge comes from the side of the branch where len is the greater
+		pred := p.Block().Preds[li]
+		if pred == b.Succs[lenGreaterEdge] || dominatedByEdge(fn, b, lenGreaterEdge, pred) {
+			if pred != b.Succs[1-lenGreaterEdge] || b.Succs[0] != b.Succs[1] {
+				return true
+			}
+		}
+	}
+	return false
+}
+
+// ---- SCAN-LIMIT ----------------------------------------------------------------
+//
+// A bufio.Scanner gives up on a token of 64 KiB ("token too long") unless it is
+// given a larger limit. A parser of the library that reads lines with one
+// refuses input that is well formed – a FASTA sequence written on one line
+// (fai.NewIndex, the unchanged tree; repaired), a header with a long @PG CL or
+// @CO line (eleventh-round seed C07-l: UnmarshalText rewritten over a Scanner).
+// Decided for every bufio.NewScanner in library code: a call of its Buffer
+// method, with a limit that is not a small constant, dominates every Scan.
+func ruleScanLimit(pkgs []string) func(c *Ctx, r *Rep, tier string) {
+	return func(c *Ctx, r *Rep, tier string) {
+		rule := "SCAN-LIMIT"
+		for _, pk := range pkgs {
+			for _, fn := range c.FuncsIn(pk) {
+				fn := fn
+				k := 0
+				allInstrs(fn, func(ins ssa.Instruction) {
+					mk, ok := ins.(*ssa.Call)
+					if !ok || calleeFullName(&mk.Call) != "bufio.NewScanner" {
+						return
+					}
+					k++
+					r.Instance(rule, 1)
+					key := fmt.Sprintf("%s#scanner~%d", c.FnName(fn), k)
+					var buffers, scans []*ssa.Call
+					for _, f := range withAnon(rootFn(fn)) {
+						allInstrs(f, func(x ssa.Instruction) {
+							cl, ok := x.(*ssa.Call)
+							if !ok || len(cl.Call.Args) == 0 {
+								return
+							}
+							recv := cl.Call.Args[0]
+							if recv != ssa.Value(mk) {
+								// captured by a literal, or held in a local cell
+								if u, ok := recv.(*ssa.UnOp); !ok || origin(u) != ssa.Value(mk) {
+									return
+								}
+							}
+							switch calleeFullName(&cl.Call) {
+							case "(*bufio.Scanner).Buffer":
+								buffers = append(buffers, cl)
+							case "(*bufio.Scanner).Scan":
+								scans = append(scans, cl)
+							}
+						})
+					}
+					why := ""
+					switch {
+					case len(buffers) == 0:
+						why = "the scanner keeps its default limit: a line (token) of 64 KiB or more ends the scan with \"token too long\" – input that is well formed is refused"
+					default:
+						b := buffers[0]
+						if lim, ok := constInt(b.Call.Args[2]); ok && lim < 1<<30 {
+							why = fmt.Sprintf("the scanner's limit is the constant %d: longer lines are refused", lim)
+						}
+						for _, s := range scans {
+							if s.Parent() == b.Parent() && !instrDominates(b, s) {
+								why = "Scan can run before the limit is raised"
+							}
+						}
+					}
+					r.Check(why == "", rule, key, c.Pos(mk.Pos()), "the limit is raised before the first Scan", why)
+				})
+			}
+		}
+	}
+}
